@@ -3,6 +3,5 @@ CONSTANTS
   Chunks <- cChunks
   MaxChunks = 4
   DoEmit = TRUE
-VIEW View
 INVARIANTS ThmInverse ThmSafe ThmDefault Emit
 CHECK_DEADLOCK FALSE
